@@ -100,6 +100,7 @@ func (e *Engine) verifyFunc(fn *ssa.Function, cfg SolverCfg) *FuncResult {
 		if r.PreSat == "unsat" {
 			res.PreSat = "unsat"
 		}
+		res.Vacuous = append(res.Vacuous, r.Vacuous...)
 		res.Seconds += r.Seconds
 	}
 	return res
@@ -283,6 +284,7 @@ func (e *Engine) verifyFuncMode(fn *ssa.Function, cfg SolverCfg, mode string) *F
 	}
 	// vacuity: preconditions satisfiable
 	res.PreSat = e.checkPreSat(vc, cfg, base)
+	res.Vacuous = e.checkReach(vc, cfg, base)
 	res.Seconds = time.Since(t0).Seconds()
 	if os.Getenv("GOVC_KEEP") == "" {
 		os.Remove(file)
@@ -313,4 +315,107 @@ func (e *Engine) checkPreSat(vc *VC, cfg SolverCfg, base string) string {
 		return "unknown"
 	}
 	return rs[0]
+}
+
+// checkReach is the vacuity guard behind the hypotheses collected along a path (callee postconditions, loop
+// invariants, frames, built-in facts): the program point of every call-site assertion, marker assertion and loop
+// invariant must be reachable, i.e. its path condition must be satisfiable together with everything assumed before
+// it, and at least one return must be reachable. A contradictory set of hypotheses otherwise "proves" everything
+// after it. Only a definite `unsat` counts; sat/unknown/timeouts pass.
+func (e *Engine) checkReach(vc *VC, cfg SolverCfg, base string) []string {
+	var b strings.Builder
+	for _, ax := range vc.e.axioms {
+		b.WriteString("(assert " + ax + ")\n")
+	}
+	type q struct {
+		name string
+		ret  bool
+	}
+	var qs []q
+	seen := map[string]bool{}
+	lastPos := 0
+	for _, m := range vc.returnMarks {
+		if m.pos > lastPos {
+			lastPos = m.pos
+		}
+	}
+	nameOf := func(m reachMark) string {
+		if m.pos == lastPos && lastPos > 0 {
+			return "last-return"
+		}
+		return "return"
+	}
+	ask := func(pc, name string, ret bool) {
+		if pc == "" || pc == "true" || pc == "false" || seen[pc] || len(qs) >= 80 {
+			return
+		}
+		seen[pc] = true
+		b.WriteString("(push 1)\n(assert " + pc + ")\n(check-sat)\n(pop 1)\n")
+		qs = append(qs, q{name, ret})
+	}
+	trivialReturn := false
+	for i, it := range vc.items {
+		for _, m := range vc.returnMarks {
+			if m.at == i {
+				if m.pc == "true" {
+					trivialReturn = true
+				}
+				ask(m.pc, nameOf(m), true)
+			}
+		}
+		if it.Ob == nil {
+			b.WriteString(it.Text + "\n")
+			continue
+		}
+		ob := it.Ob
+		k := ob.Kind
+		if (strings.HasPrefix(k, "callsite") || strings.HasPrefix(k, "assert") || strings.HasPrefix(k, "inv-")) && !ob.Skip {
+			ask(ob.PC, ob.Name, false)
+		}
+		if ob.Term != "true" {
+			b.WriteString("(assert " + ob.Term + ")\n")
+		}
+	}
+	for _, m := range vc.returnMarks {
+		if m.at >= len(vc.items) {
+			if m.pc == "true" {
+				trivialReturn = true
+			}
+			ask(m.pc, nameOf(m), true)
+		}
+	}
+	if len(qs) == 0 {
+		return nil
+	}
+	file := writeFile(cfg.WorkDir, base+".reach.smt2", finishScript(vc.decls, b.String()))
+	if os.Getenv("GOVC_KEEP") == "" {
+		defer os.Remove(file)
+	}
+	out, _ := runSolver(solvers[0], file, 1000, time.Duration(1000*len(qs)+15000)*time.Millisecond)
+	rs := parseResults(out)
+	var vac []string
+	rets, deadRets := 0, 0
+	for i, qq := range qs {
+		st := "unknown"
+		if i < len(rs) {
+			st = rs[i]
+		}
+		if qq.ret {
+			rets++
+			if st == "unsat" {
+				deadRets++
+				if qq.name == "last-return" {
+					vac = append(vac, vc.fn.String()+"#last-return (the function's final return statement is unreachable)")
+				}
+			}
+			continue
+		}
+		if st == "unsat" {
+			vac = append(vac, qq.name)
+		}
+	}
+	if rets > 0 && deadRets == rets && !trivialReturn {
+		vac = append(vac, vc.fn.String()+"#return (no return is reachable)")
+	}
+	return vac
 }
